@@ -55,11 +55,17 @@ def cases(tier, seed, shard, nshards):
         for si in range(len(STARTS)):
             for seq in itertools.product(range(len(MUT)), repeat=k):
                 if idx % nshards == shard:
-                    yield {"k": "map", "start": si, "ops": [list(MUT[i]) for i in seq], "pre": PRES[(idx // nshards) % len(PRES)]}
+                    c = {"k": "map", "start": si, "ops": [list(MUT[i]) for i in seq], "pre": PRES[(idx // nshards) % len(PRES)]}
+                    if (idx // nshards) % 3 == 0 and si < 3:
+                        c["parsed"] = (idx // nshards // 3) % 8
+                    yield c
                 idx += 1
     r = rng_for(seed, shard, "c19")
     for _ in range(tier_pick(tier, 8000, 60000) // nshards):
-        yield {"k": "map", "start": r.randrange(len(STARTS)), "ops": [list(r.choice(MUT)) for _ in range(30)], "pre": r.choice(PRES)}
+        c = {"k": "map", "start": r.randrange(len(STARTS)), "ops": [list(r.choice(MUT)) for _ in range(30)], "pre": r.choice(PRES)}
+        if r.random() < 0.4:
+            c["parsed"] = r.randrange(8)
+        yield c
     for _ in range(tier_pick(tier, 6000, 400000) // nshards):
         text, _ = grammar.document(r, grammar.Opts(max_items=5, min_items=1))
         yield {"k": "eq", "text": text}
@@ -110,6 +116,21 @@ def check_map(case, ctx):
     fields = [Field(k, "v0_" + k, i) for i, k in enumerate(start)]
     typ, ekey = [("article", "Key1"), ("article", ""), ("", "0"), ("misc", "Key1")][(case["start"] + len(case["ops"])) % 4]
     e = Entry(typ, ekey, list(fields), start_line=0, raw="raw")
+    sib = None
+    if case.get("parsed") is not None and len(start) <= 3:
+        # the start entry really comes out of the parser (every source form of a field-less entry), next to a WITNESS
+        # entry of the same form that is never operated on: entries are separate mappings (seed C19-g)
+        typ, ekey = "article", "Key1"
+        body = lambda key: ("@article{%s, " % key + ", ".join("%s = {v0_%s}" % (k, k) for k in start) + "}") if start else \
+            ["@article{%s}", "@article{%s,}", "@article{%s ,\n}", "@article{ %s }"][case["parsed"] % 4] % key
+        text = body("Key1") + "\n" + body("Key2") + "\n"
+        st, plib = sp.parse_default(text) if case["parsed"] & 4 else sp.parse_raw(text)
+        if st != "ok" or len(plib.entries) != 2:
+            ctx.note("parsed_start_unavailable")
+        else:
+            ctx.mon("parsed_start_entry_with_witness")
+            e, sib = plib.entries
+            sib_init = [(f.key, f.value) for f in sib.fields]
     if case.get("pre"):
         from bibtexparser.library import Library
         lib = pre_apply(Library([e]), case["pre"])
@@ -182,6 +203,13 @@ def check_map(case, ctx):
                                                                                    fields=[f.key for f in e.fields], model=list(d.keys()))))
             break
         ctx.state("".join(d.keys()))
+    if sib is not None and not out:
+        now = [(f.key, f.value) for f in sib.fields]
+        st, again = sp.parse_default(text) if case["parsed"] & 4 else sp.parse_raw(text)
+        fresh = [(f.key, f.value) for f in again.entries[0].fields] if st == "ok" and len(again.entries) == 2 else None
+        if now != sib_init or sib.fields is e.fields or [k for k, _ in sib.items()][2:] != [k for k, _ in sib_init] or fresh != sib_init:
+            out.append(Violation("shared-state", "C19:map:another-entry-changed-or-later-parse-differs",
+                                 dict(case=case, text=text, witness_before=sib_init, witness_after=now, fresh_parse=fresh)))
     ctx.mon("entry_invariant", contracts.COUNT["entry_invariant"] - c0)
     if replaced and removed:
         ctx.nontriv(case)
